@@ -830,7 +830,9 @@ func (a *typedArrayObject) setOwnStr(p unistring.String, v Value, throw bool) bo
 		return true
 	}
 	if idx == 0 {
-		toNumeric(v) // make sure it throws
+		// a canonical numeric string that is not a valid integer index ("-0", "1.5", "Infinity"): TypedArraySetElement still
+		// converts the value according to the content type (ToBigInt / ToNumber) before discarding it
+		a._putIdx(-1, v)
 		return true
 	}
 	return a.baseObject.setOwnStr(p, v, throw)
